@@ -654,6 +654,14 @@ func (f *Flat) ReachNil(start []int, stop func(*GNode) bool) map[int]bool {
 								if rhs.Op == token.AND {
 									nf[l] = false // the address of anything is not nil
 								}
+							case *ast.SelectorExpr:
+								// a sentinel: a package-level error variable (return fs_db.ErrNoFreeSpace)
+								if certainlyNonNilError(info, rhs) {
+									nf[l] = false
+								}
+							}
+							if id, isId := ast.Unparen(as.Rhs[i]).(*ast.Ident); isId && !isNilIdent(info, id) && certainlyNonNilError(info, id) {
+								nf[l] = false
 							}
 						}
 					}
